@@ -90,7 +90,7 @@ PROPS = {
         assumptions=["no symlinked directories on artifact paths"],
     ),
     "C08": dict(
-        families=[dict(name="pipe", args=["-specs", "18,23,5,27"])],
+        families=[dict(name="pipe", args=["-specs", "18,23,5,27,28"])],
         level_text="Theorems C08_once_and_order, C08_owners_visited_first, C08_scope, C08_cycle_run/commit/checkout/status, "
                    "C08_cycle_never_executed, C08_terminates, C08_commit_scope_exact / C08_commit_others_untouched / "
                    "C08_checkout_others_untouched / C08_readonly_world / C08_status_scope_exact (a command on explicit "
@@ -276,7 +276,7 @@ PROPS = {
     ),
     "C11": dict(
         facts=True,
-        families=[dict(name="remote")],
+        families=[dict(name="remote"), dict(name="pipe", args=["-specs", "28", "-n", "14"])],
         level_text="Theorems C11_push_closure, C11_push_fails_on_missing, C11_push_ok_iff, C11_fetch_complete, "
                    "C11_then_checkout (push, lose any subset, fetch: checkout behaves exactly as from the pushed cache "
                    "and every object is 0444), C11_scope, C11_fetch_retry (any number of part-way rclone failures followed by a "
